@@ -7,6 +7,7 @@ mod adoc;
 mod build;
 mod engine;
 mod gen;
+mod htmltok;
 mod driver;
 mod json;
 mod model;
